@@ -134,6 +134,37 @@ theorem queued_requests_were_issued {okf : Nat} {node : Int} {s : State} (h : Re
   simp only [issuedFor, issuedForL, List.mem_filter, decide_eq_true_eq] at this
   exact ⟨reset r, this.1, rfl, this.2⟩
 
+/-- (v) the guard of a keep response is on the VIRTUAL qubit only: whenever the virtual qubit the head
+request names for its next pair is allocated, the response is deferred — whatever physical qubit id the
+response carries, in particular also when the unit module already maps that virtual qubit to the very same
+physical id (a link layer with ONE communication qubit delivers every pair of a sequential request in the
+same physical qubit: pair k+1 must wait until the program has freed pair k). -/
+theorem busy_virtual_defers {okf : Nat} {s : State} {r : Resp} {hd : Req} {rest : List Req} {app : Nat}
+    {m : AppMem} {qa : Int} {qarr : Arr} {v : Int}
+    (hq : getQ s.queues (keyOf s.nodeId r) = hd :: rest) (hk : 0 ≤ hd.tot - hd.left)
+    (hsub : getSub s.subs hd.sub = some app) (happ : getApp s.apps app = some m) (hK : r.ty = .K)
+    (hqa : hd.qAddr = some qa) (harr : getArr m.arrays qa = some qarr)
+    (hv : qarr[(hd.tot - hd.left).toNat]? = some (some v)) (hbusy : hasVirtual m v = true) :
+    tryHandle okf s r = .no := by
+  unfold tryHandle
+  simp only [hq, hsub, happ, hK, hqa, harr, hv, hbusy]
+  have : ¬ hd.tot - hd.left < 0 := by omega
+  simp [this]
+
+/-- non-vacuity, one communication qubit: a sequential receive-keep request for 2 pairs into virtual
+qubit 0, both responses carry physical qubit 0. The second response stays pending while the first pair is
+allocated (although the unit module already maps virtual 0 to physical 0) and is consumed after `qfree`. -/
+theorem one_communication_qubit_defers :
+    let acts : List Action :=
+      [ .initApp 0 1, .startSub 0 0, .array 0 0 2, .store 0 0 0 (some 0), .store 0 0 1 (some 0), .array 0 1 4,
+        .recv 0 7 3 (some 0) 1,
+        .deliver .K 7 3 1 0 [10, 11], .deliver .K 7 3 1 0 [20, 21] ]
+    ((run 2 (init 0) acts).map fun s => (s.log.map (fun e => e.resp.id), s.pending.map (·.id))) = some ([0], [1]) ∧
+    ((run 2 (init 0) (acts ++ [.qfree 0 0, .poll])).map fun s =>
+      (s.log.map (fun e => (e.resp.id, e.k, e.prev)), s.pending.map (·.id))) =
+      some ([(0, 0, none), (1, 1, none)], []) := by
+  decide
+
 /-- (vi) a wait instruction completes (`waitOk = some true`) only if the awaited entries are defined:
 all entries of the slice (wait_all), at least one (wait_any), the entry (wait_single). -/
 theorem wait_sound {s : State} {sub : Nat} {addr : Int} {lo hi : Nat} :
